@@ -22,12 +22,12 @@ timeout -k 1 900 cargo test --workspace --offline 2>&1 | grep -E "^test result|F
 # 2. demo with the change
 install_demo
 echo "-- demo WITH the change"
-timeout -k 1 600 cargo test -p acts --offline --lib $FILTER 2>&1 | grep -E "^test |^test result|panicked" | head -12
+timeout -k 1 600 cargo test -p ${PKG:-acts} --offline --lib $FILTER 2>&1 | grep -E "^test |^test result|panicked" | head -12
 # 3. demo without the change
 git checkout -q -- . ; git clean -fdq acts store
 install_demo
 echo "-- demo WITHOUT the change"
-timeout -k 1 600 cargo test -p acts --offline --lib $FILTER 2>&1 | grep -E "^test |^test result|panicked" | head -12
+timeout -k 1 600 cargo test -p ${PKG:-acts} --offline --lib $FILTER 2>&1 | grep -E "^test |^test result|panicked" | head -12
 git checkout -q -- . ; git clean -fdq acts store
 } > $OUT 2>&1
 tail -40 $OUT
